@@ -78,8 +78,10 @@ type ChanRef struct{ obj int }
 // RopeRef is the result of (*bytes.Buffer).Bytes(): it aliases the buffer object,
 // reading it yields the buffer's current rope.
 type RopeRef struct {
-	buf PtrV
-	n   int // number of segments at the time of the call (-1: all)
+	buf  PtrV
+	n    int    // unused (kept for compatibility)
+	snap StrV   // the buffer's content when Bytes() was called: the slice's own length and content
+	gen  uint64 // the buffer's reset generation at that time
 }
 
 // ---- maps ------------------------------------------------------------------
